@@ -32,6 +32,7 @@ class PathResult:
         self.summarised = set()
         self.covers = []
         self.cut = False            # ended at the inductive step of a loop invariant (no native cross-check)
+        self.feasible = "unknown"   # sat: the path condition has a model (vacuity guard)
 
 
 class ContractResult:
@@ -104,6 +105,7 @@ class Runner:
         eng.func_objects = {}
         from .symapi import spec_funcval
         eng.loop_invariants = {k: spec_funcval(eng, f).py for k, f in c.invariants.items()}
+        eng.loop_writes = {k: list(getattr(f, "__writes__", [])) for k, f in c.invariants.items()}
         eng.harness_mi = hmods[c.module]
         eng.unfold_depth = getattr(c, "unfold_depth", 1)
         from . import symapi
@@ -242,6 +244,13 @@ class Runner:
                 if a["status"] == "proved":
                     a["status"] = "unknown"
                     a["why"].add("budget")
+        # vacuity guard: some path that runs the harness to its end must be known satisfiable
+        full = [pr for pr in res.paths if pr.status == "ok" and not pr.cut and pr.obligations]
+        if full and not any(pr.feasible == "sat" for pr in full) and not c.canary:
+            for k, a in agg.items():
+                if a["status"] == "proved":
+                    a["status"] = "unknown"
+                    a["why"].add("vacuity guard: no path of the harness is known to be satisfiable (all path conditions unsat or undecided)")
         if "<subset>" in agg or "<engine>" in agg:
             for k, a in agg.items():
                 if a["status"] == "proved":
@@ -355,8 +364,25 @@ class Runner:
             fs.set("timeout", 5000)
             for a in p.pc:
                 fs.add(a)
-            if fs.check() == z3.unsat:
+            rf = fs.check()
+            if rf == z3.unsat:
                 pr.status = "infeasible"      # explored only because feasibility is over-approximated
+            elif rf == z3.unknown:
+                # vacuity guard: look for a model with small inputs; a path never shown satisfiable does not count
+                # as evidence that the harness reaches its checks
+                fs.push()
+                for nm, sv in p.inputs.items():
+                    if sv.kind in ("str", "seq"):
+                        fs.add(z3.Length(sv.t) <= 3)
+                    elif sv.kind == "int":
+                        fs.add(sv.t >= -9, sv.t <= 300)
+                    elif sv.kind == "ref" and conc_int(sv.cls) is not None and CLASSES[conc_int(sv.cls)] == "list":
+                        fs.add(z3.Length(z3.Const("H0_list.items", z3.ArraySort(z3.IntSort(), ValSeq))[sv.ref]) <= 3)
+                rf2 = fs.check()
+                fs.pop()
+                if rf2 == z3.sat:
+                    rf = z3.sat
+            pr.feasible = "sat" if rf == z3.sat else ("unsat" if rf == z3.unsat else "unknown")
         if pr.status in ("ok", "assume-false"):
             allproved = True
             for name, cond, info in p.obligations:
